@@ -257,8 +257,12 @@ class Ctx:
             a, b = base + k * per, min(base + (k + 1) * per, base + n)
             if a >= b:
                 continue
+            # a weak compare-exchange that mostly fails (Miri's default, 0.8) hides what the success ordering does and one
+            # that never fails hides what the retry path does: rotate
+            cas = st.get("cas_failure_rates", ["0.8", "0.0", "0.3"])
             flags = ["-Zmiri-many-seeds=%d..%d" % (a, b), "-Zmiri-disable-isolation",
-                     "-Zmiri-preemption-rate=" + rates[k % len(rates)]] + st.get("flags", [])
+                     "-Zmiri-preemption-rate=" + rates[k % len(rates)],
+                     "-Zmiri-compare-exchange-weak-failure-rate=" + cas[(k // len(rates)) % len(cas)]] + st.get("flags", [])
             cmd = ["cargo", "+nightly", "miri", "run", "--offline", "--bin", st["bin"],
                    "--target-dir", os.path.join(self.root, MIRI_TARGET_DIR), "--"] + st["args"]
             env_extra = {"MIRIFLAGS": " ".join(flags)}
